@@ -188,6 +188,7 @@ pub struct Model<'a> {
     stream_snaps: HashMap<usize, (Vec<(usize, u64, bool, bool)>, Vec<ModSnap>)>,
     walks: HashMap<usize, WalkAcc>,
     last_mutation_idx: usize,
+    stalled_now: usize,
     rep: Report,
     now: u64,
     idx: usize,
@@ -1692,7 +1693,9 @@ impl<'a> Model<'a> {
                     _ => false,
                 })
                 .collect();
-            if !waiting.is_empty() && st.backlog > 0 && self.subs[si].del_i.is_none() {
+            // consumers the harness holds at a stall point cannot take messages; at least one
+            // of the waiting consumers must be a genuinely waiting one
+            if waiting.len() > self.stalled_now && st.backlog > 0 && self.subs[si].del_i.is_none() {
                 self.v(
                     "backlog_with_waiting_consumer",
                     &["C06"],
